@@ -221,16 +221,7 @@ def run(ctx):
     ctx.trust("SFTPServer handle reads are modelled as an honest server returning 1..n bytes of the true file "
               "(short-read policy chosen by the harness); response order = request order (one server thread)")
     from pv import lib_sftpgen
-    facts = lib_sftpgen.async_request_facts()
-    ctx.write_generated("C28", "/- generated from paramiko/sftp_file.py, paramiko/file.py and the AST of "
-                        "SFTPClient._async_request -/\nnamespace PV.Generated.C28\n"
-                        "def maxRequestSize : Nat := %d\ndef defaultBufsize : Nat := %d\n"
-                        "/-- every use of self.request_number in _async_request (the id written into the packet, the "
-                        "registration in _expecting, the increment) lies inside the acquire/try/finally-release region "
-                        "of self._lock: allocating a request number and putting it into the packet is one atomic step -/\n"
-                        "def idReadUnderLock : Bool := %s\nend PV.Generated.C28\n"
-                        % (sf.SFTPFile.MAX_REQUEST_SIZE, sf.SFTPFile._DEFAULT_BUFSIZE,
-                           "true" if facts["idReadUnderLock"] else "false"))
+    ctx.write_generated("C28", lib_sftpgen.c28_generated_source())
     ctx.build()
     rng = ctx.rng
     n_lock = 10000 if ctx.thorough else 1600
